@@ -137,7 +137,8 @@ def oracles(case: dict, r: dict, B: dict) -> list[dict]:
         d = r["disposition"]
         for b in d["bad"][:1]:
             V.append(_v("disposition", b[2], f"task {b[0]} (scenario {b[1]}): {b[2]} start={b[3]} end={b[4]}; horizon after extension: {r.get('m_after')}"))
-        if d["unscheduled"] and r.get("warnings", 0) == 0:
+        warned = r.get("warnings", 0) > 0 or "warn" in r.get("stderr_tail", "").lower()
+        if d["unscheduled"] and not warned:
             V.append(_v("disposition", "unscheduled-without-warning", f"{d['unscheduled']} leaf task(s) unscheduled but no warning was emitted"))
     return V
 
